@@ -106,55 +106,68 @@ Section SigModel.
 End SigModel.
 
 (* ================= the cache discipline of one mapper object ================= *)
-Inductive hop :=
+(* A: the scalar type (Q in the correspondence run, R in the theorems) *)
+Inductive hop (A : Type) :=
 | OPsw                                        (* mapper.pix_sub_weights *)
 | OFields                                     (* mapper.pix_indexes_for_sub_slim_index, pix_sizes_..., pix_weights_... *)
 | OMat                                        (* mapper.mapping_matrix *)
 | OUq                                         (* mapper.unique_mappings *)
 | ONb                                         (* mapper.neighbors *)
 | OSig (scale : nat)                          (* mapper.pixel_signals_from(signal_scale) *)
-| ORegW (inner outer : Q) (scale : nat)       (* AdaptiveBrightness(...).regularization_weights_from(mapper) *)
-| ORegM (inner outer : Q) (scale : nat).      (* mapper.regularization_matrix with that regularization *)
+| ORegW (inner outer : A) (scale : nat)       (* AdaptiveBrightness(...).regularization_weights_from(mapper) *)
+| ORegM (inner outer : A) (scale : nat).      (* mapper.regularization_matrix with that regularization *)
+Arguments OPsw {A}. Arguments OFields {A}. Arguments OMat {A}. Arguments OUq {A}. Arguments ONb {A}.
+Arguments OSig {A} scale. Arguments ORegW {A} inner outer scale. Arguments ORegM {A} inner outer scale.
 
-Inductive hobs :=
-| BPsw (p : psw_out)
-| BMat (r : res qm)
-| BUq (r : res uq_out)
+Definition psw_t (A : Type) : Type := (list (list Z) * list nat * list (list A))%type.    (* mappings, sizes, weights *)
+Definition uq_t (A : Type) : Type := (list (list Z) * list (list A) * list nat)%type.
+Inductive hobs (A : Type) :=
+| BPsw (p : psw_t A)
+| BMat (r : res (list (list A)))
+| BUq (r : res (uq_t A))
 | BNb (n : nb_out)
-| BVec (v : res qv).
+| BVec (v : res (list A)).
+Arguments BPsw {A} p. Arguments BMat {A} r. Arguments BUq {A} r. Arguments BNb {A} n. Arguments BVec {A} v.
 
 Definition res_map {A B} (f : A -> B) (r : res A) : res B :=
   match r with Ok a => Ok (f a) | Raise e => Raise e end.
 Definition res_bind {A B} (r : res A) (f : A -> res B) : res B :=
   match r with Ok a => f a | Raise e => Raise e end.
+(* UniqueMappings packaging: three arrays *)
+Definition uq_packT {A} (rows : list (list Z * list A * nat)) : uq_t A :=
+  (map (fun r => fst (fst r)) rows, map (fun r => snd (fst r)) rows, map snd rows).
 
 Section Machine.
+  Context {O : NumOps}.
+  Notation T := (T O).
   (* what depends on the kind of mapper: the bodies of pix_sub_weights and of the mesh's neighbors *)
-  Variable f_psw : unit -> psw_out.
+  Variable f_psw : unit -> psw_t T.
   Variable f_nb : unit -> nb_out.
   (* pixels, pixels in mask, over_sampler.slim_for_sub_slim, over_sampler.sub_size, adapt_data *)
-  Variables (P N : nat) (sfs subs : list nat) (adapt : qv).
+  Variables (P N : nat) (sfs subs : list nat) (adapt : list T).
 
-  Record mstate := { c_psw : option psw_out; c_idx : option (list (list Z)); c_sz : option (list nat);
-                     c_wt : option qm; c_mm : option (res qm); c_uq : option (res uq_out); c_nb : option nb_out }.
+  Record mstate := { c_psw : option (psw_t T); c_idx : option (list (list Z)); c_sz : option (list nat);
+                     c_wt : option (list (list T)); c_mm : option (res (list (list T))); c_uq : option (res (uq_t T));
+                     c_nb : option nb_out }.
   Definition st0 : mstate :=
     {| c_psw := None; c_idx := None; c_sz := None; c_wt := None; c_mm := None; c_uq := None; c_nb := None |}.
 
   (* the functions of the cached arrays *)
-  Definition mm_of (idx : list (list Z)) (sz : list nat) (wt : qm) : res qm :=
-    @mapping_matrix QOps idx sz wt P N sfs (@sub_fractions QOps subs).
-  Definition uq_of (idx : list (list Z)) (sz : list nat) (wt : qm) : res uq_out :=
-    res_uq (@unique_from QOps idx sz wt P subs).
-  Definition sig_of (idx : list (list Z)) (sz : list nat) (wt : qm) (scale : nat) : res qv :=
-    @pixel_signals QOps P idx sz wt sfs adapt scale.
-  Definition regw_of (idx : list (list Z)) (sz : list nat) (wt : qm) (inner outer : Q) (scale : nat) : res qv :=
-    res_map (@reg_weights QOps inner outer) (sig_of idx sz wt scale).
-  Definition regm_of (idx : list (list Z)) (sz : list nat) (wt : qm) (nb : nb_out) (inner outer : Q) (scale : nat)
-    : res qm :=
-    res_bind (regw_of idx sz wt inner outer scale) (fun w => @reg_matrix QOps w (fst nb) (snd nb)).
+  Definition mm_of (idx : list (list Z)) (sz : list nat) (wt : list (list T)) : res (list (list T)) :=
+    mapping_matrix idx sz wt P N sfs (sub_fractions subs).
+  Definition uq_of (idx : list (list Z)) (sz : list nat) (wt : list (list T)) : res (uq_t T) :=
+    res_map uq_packT (unique_from idx sz wt P subs).
+  Definition sig_of (idx : list (list Z)) (sz : list nat) (wt : list (list T)) (scale : nat) : res (list T) :=
+    pixel_signals P idx sz wt sfs adapt scale.
+  Definition regw_of (idx : list (list Z)) (sz : list nat) (wt : list (list T)) (inner outer : T) (scale : nat)
+    : res (list T) :=
+    res_map (reg_weights inner outer) (sig_of idx sz wt scale).
+  Definition regm_of (idx : list (list Z)) (sz : list nat) (wt : list (list T)) (nb : nb_out) (inner outer : T)
+             (scale : nat) : res (list (list T)) :=
+    res_bind (regw_of idx sz wt inner outer scale) (fun w => reg_matrix w (fst nb) (snd nb)).
 
   (* cached_property: return the stored value, or compute, store and return *)
-  Definition get_psw (st : mstate) : mstate * psw_out :=
+  Definition get_psw (st : mstate) : mstate * psw_t T :=
     match c_psw st with
     | Some p => (st, p)
     | None => let p := f_psw tt in
@@ -175,7 +188,7 @@ Section Machine.
               ({| c_psw := c_psw st; c_idx := c_idx st; c_sz := Some v; c_wt := c_wt st; c_mm := c_mm st;
                   c_uq := c_uq st; c_nb := c_nb st |}, v)
     end.
-  Definition get_wt (st : mstate) : mstate * qm :=
+  Definition get_wt (st : mstate) : mstate * list (list T) :=
     match c_wt st with
     | Some v => (st, v)
     | None => let '(st, p) := get_psw st in let v := snd p in
@@ -189,52 +202,52 @@ Section Machine.
               ({| c_psw := c_psw st; c_idx := c_idx st; c_sz := c_sz st; c_wt := c_wt st; c_mm := c_mm st;
                   c_uq := c_uq st; c_nb := Some v |}, v)
     end.
-  Definition get_fields (st : mstate) : mstate * (list (list Z) * list nat * qm) :=
+  Definition get_fields (st : mstate) : mstate * psw_t T :=
     let '(st, idx) := get_idx st in let '(st, sz) := get_sz st in let '(st, wt) := get_wt st in
     (st, (idx, sz, wt)).
-  Definition get_mm (st : mstate) : mstate * res qm :=
+  Definition get_mm (st : mstate) : mstate * res (list (list T)) :=
     match c_mm st with
     | Some v => (st, v)
-    | None => let '(st, (idx, sz, wt)) := get_fields st in let v := mm_of idx sz wt in
+    | None => let '(st, f) := get_fields st in let v := mm_of (fst (fst f)) (snd (fst f)) (snd f) in
               ({| c_psw := c_psw st; c_idx := c_idx st; c_sz := c_sz st; c_wt := c_wt st; c_mm := Some v;
                   c_uq := c_uq st; c_nb := c_nb st |}, v)
     end.
-  Definition get_uq (st : mstate) : mstate * res uq_out :=
+  Definition get_uq (st : mstate) : mstate * res (uq_t T) :=
     match c_uq st with
     | Some v => (st, v)
-    | None => let '(st, (idx, sz, wt)) := get_fields st in let v := uq_of idx sz wt in
+    | None => let '(st, f) := get_fields st in let v := uq_of (fst (fst f)) (snd (fst f)) (snd f) in
               ({| c_psw := c_psw st; c_idx := c_idx st; c_sz := c_sz st; c_wt := c_wt st; c_mm := c_mm st;
                   c_uq := Some v; c_nb := c_nb st |}, v)
     end.
 
   (* one call on the mapper: the new cache state and what the caller sees.  pixel_signals_from and the
      regularization queries read the cached arrays and store nothing *)
-  Definition step (st : mstate) (op : hop) : mstate * hobs :=
+  Definition step (st : mstate) (op : hop T) : mstate * hobs T :=
     match op with
     | OPsw => let '(st, p) := get_psw st in (st, BPsw p)
     | OFields => let '(st, f) := get_fields st in (st, BPsw f)
     | OMat => let '(st, v) := get_mm st in (st, BMat v)
     | OUq => let '(st, v) := get_uq st in (st, BUq v)
     | ONb => let '(st, v) := get_nb st in (st, BNb v)
-    | OSig scale => let '(st, (idx, sz, wt)) := get_fields st in (st, BVec (sig_of idx sz wt scale))
+    | OSig scale => let '(st, f) := get_fields st in (st, BVec (sig_of (fst (fst f)) (snd (fst f)) (snd f) scale))
     | ORegW inner outer scale =>
-        let '(st, (idx, sz, wt)) := get_fields st in (st, BVec (regw_of idx sz wt inner outer scale))
+        let '(st, f) := get_fields st in (st, BVec (regw_of (fst (fst f)) (snd (fst f)) (snd f) inner outer scale))
     | ORegM inner outer scale =>
-        let '(st, (idx, sz, wt)) := get_fields st in
-        let '(st, nb) := get_nb st in (st, BMat (regm_of idx sz wt nb inner outer scale))
+        let '(st, f) := get_fields st in
+        let '(st, nb) := get_nb st in (st, BMat (regm_of (fst (fst f)) (snd (fst f)) (snd f) nb inner outer scale))
     end.
-  Fixpoint run (st : mstate) (ops : list hop) : list hobs :=
+  Fixpoint run (st : mstate) (ops : list (hop T)) : list (hobs T) :=
     match ops with
     | [] => []
     | op :: t => let '(st', o) := step st op in o :: run st' t
     end.
 
   (* the pure function of the mapper's inputs that each operation is meant to return *)
-  Definition pure_obs (op : hop) : hobs :=
+  Definition pure_obs (op : hop T) : hobs T :=
     let p := f_psw tt in
     let idx := fst (fst p) in let sz := snd (fst p) in let wt := snd p in
     match op with
-    | OPsw | OFields => BPsw p
+    | OPsw | OFields => BPsw (idx, sz, wt)
     | OMat => BMat (mm_of idx sz wt)
     | OUq => BUq (uq_of idx sz wt)
     | ONb => BNb (f_nb tt)
@@ -244,17 +257,29 @@ Section Machine.
     end.
 End Machine.
 
+(* the two kinds of mapper *)
+Section Kinds.
+  Context {O : NumOps}.
+  Definition rect_fns (grid : list (T O * T O)) (shape : Z * Z) (buffer : T O) :=
+    (fun _ : unit => rect_psw (overlay shape grid buffer) grid,
+     fun _ : unit => nb_pack (rect_neighbors (fst shape) (snd shape))).
+  Definition del_fns (grid points : list (T O * T O)) (simplices : list (list Z)) (simplex_for indptr indices : list Z) :=
+    (fun _ : unit => let mp := fst (del_mappings grid simplex_for simplices points) in
+                     (mp, snd (del_mappings grid simplex_for simplices points), del_weights grid points mp),
+     fun _ : unit => del_neighbors indptr indices (length points)).
+End Kinds.
+
 (* ================= correspondence cases ================= *)
 (* the case type of the check: a case of Model/C06.v (one fresh mapper, observed once) or a history *)
 Inductive case :=
 | KBase (k : C06.case)
 | KHistRect (tol vtol : Q) (m : mask) (subs : list nat) (grid : list qpt) (shape : Z * Z) (buffer : Q)
-            (adapt : qv) (steps : list (hop * hobs))
+            (adapt : qv) (steps : list (hop Q * hobs Q))
 | KHistDel (tol vtol : Q) (m : mask) (subs : list nat) (grid points : list qpt)
            (simplices : list (list Z)) (simplex_for indptr indices : list Z)     (* oracle outputs *)
-           (adapt : qv) (steps : list (hop * hobs)).
+           (adapt : qv) (steps : list (hop Q * hobs Q)).
 
-Definition obs_close (tol vtol : Q) (a b : hobs) : bool :=
+Definition obs_close (tol vtol : Q) (a b : hobs Q) : bool :=
   match a, b with
   | BPsw p, BPsw q => psw_close tol p q
   | BMat x, BMat y => res_eqb (qm_close tol) x y
@@ -265,16 +290,8 @@ Definition obs_close (tol vtol : Q) (a b : hobs) : bool :=
   end.
 (* tolerance of an observation: the adaptive-brightness quantities divide by counts and by the maximum, so they
    are compared with vtol even on the exact streams *)
-Definition step_tol (tol vtol : Q) (op : hop) : Q :=
+Definition step_tol (tol vtol : Q) (op : hop Q) : Q :=
   match op with OSig _ | ORegW _ _ _ | ORegM _ _ _ => vtol | _ => tol end.
-
-Definition rect_fns (grid : list qpt) (shape : Z * Z) (buffer : Q) :=
-  (fun _ : unit => @rect_psw QOps (@overlay QOps shape grid buffer) grid,
-   fun _ : unit => nb_pack (rect_neighbors (fst shape) (snd shape))).
-Definition del_fns (grid points : list qpt) (simplices : list (list Z)) (simplex_for indptr indices : list Z) :=
-  (fun _ : unit => let '(mp, sz) := @del_mappings QOps grid simplex_for simplices points in
-                   (mp, sz, @del_weights QOps grid points mp),
-   fun _ : unit => del_neighbors indptr indices (length points)).
 
 Fixpoint all2 {A B} (f : A -> B -> bool) (la : list A) (lb : list B) : bool :=
   match la, lb with
@@ -283,18 +300,18 @@ Fixpoint all2 {A B} (f : A -> B -> bool) (la : list A) (lb : list B) : bool :=
   | _, _ => false
   end.
 
-Definition hist_agree (fns : (unit -> psw_out) * (unit -> nb_out)) (P : nat) (m : mask) (subs : list nat)
-           (adapt : qv) (tol vtol : Q) (steps : list (hop * hobs)) : bool :=
-  let outs := run (fst fns) (snd fns) P (count_unmasked m) (slim_for_sub m subs) subs adapt st0 (map fst steps) in
-  all2 (fun (o : hobs) (s : hop * hobs) => obs_close (step_tol tol vtol (fst s)) vtol o (snd s)) outs steps.
+Definition hist_agree (fns : (unit -> psw_t Q) * (unit -> nb_out)) (P : nat) (m : mask) (subs : list nat)
+           (adapt : qv) (tol vtol : Q) (steps : list (hop Q * hobs Q)) : bool :=
+  let outs := @run QOps (fst fns) (snd fns) P (count_unmasked m) (slim_for_sub m subs) subs adapt st0 (map fst steps) in
+  all2 (fun (o : hobs Q) (s : hop Q * hobs Q) => obs_close (step_tol tol vtol (fst s)) vtol o (snd s)) outs steps.
 
 Definition hagree (k : case) : bool :=
   match k with
   | KBase k => agree k
   | KHistRect tol vtol m subs grid shape buffer adapt steps =>
-      hist_agree (rect_fns grid shape buffer) (Z.to_nat (fst shape * snd shape)) m subs adapt tol vtol steps
+      hist_agree (@rect_fns QOps grid shape buffer) (Z.to_nat (fst shape * snd shape)) m subs adapt tol vtol steps
   | KHistDel tol vtol m subs grid points simplices simplex_for indptr indices adapt steps =>
-      hist_agree (del_fns grid points simplices simplex_for indptr indices) (length points) m subs adapt tol vtol steps
+      hist_agree (@del_fns QOps grid points simplices simplex_for indptr indices) (length points) m subs adapt tol vtol steps
   end.
 
 (* ================= specification of a history: every observation, whenever it was made, is accepted by the
@@ -336,7 +353,7 @@ Section HistSpec.
         if Nat.eqb i j then Qred ((1 # 100000000) + Qsum (map (fun k => Qred (r i + r (Z.to_nat k))) adj))
         else if existsb (Z.eqb (Z.of_nat j)) adj then Qred (- (r i + r j)) else 0%Q) (seq 0 P)) (seq 0 P).
 
-  Definition step_spec (s : hop * hobs) : bool :=
+  Definition step_spec (s : hop Q * hobs Q) : bool :=
     match s with
     | (OPsw, BPsw p) | (OFields, BPsw p) => psw_spec tol P S w p
     | (OMat, BMat (Ok M)) => matrix_spec tol subs P w M
